@@ -5,12 +5,13 @@
   (`fromRaw_toRaw_honest`, `sample_complete_core`).
 -/
 import Lumina.Proofs.Eds
+import Lumina.Proofs.NmtRange
 import Lumina.Model.Sample
 import Lumina.Spec.C04
 
 namespace Lumina.Proofs.Sample
 open Lumina.Util Lumina.Model.Nmt Lumina.Model.Eds Lumina.Model.Sample
-open Lumina.Proofs.Nmt Lumina.Proofs.Eds Lumina.Spec.C04
+open Lumina.Proofs.Nmt Lumina.Proofs.NmtRange Lumina.Proofs.Eds Lumina.Spec.C04
 
 /-- observed verdict of a verification -/
 def accepted {ε} (r : Except ε Unit) : Bool :=
@@ -26,6 +27,14 @@ theorem share_ns_length {sh : Share} (h : NS_SIZE ≤ sh.data.length) : sh.ns.le
   split
   · simp [parityNs, maxNsId]
   · simp [List.length_take]; omega
+
+/-- lumina's wrapper only adds rejections -/
+theorem luminaVerifyRange_ok {H : HashFn} {p : NsProof} {root : NsHash} {l : List Bytes} {ns : Bytes}
+    (h : luminaVerifyRange H p root l ns = .ok ()) : verifyRange H p root l ns = .ok () := by
+  unfold luminaVerifyRange at h
+  split at h
+  · cases h
+  · exact h
 
 /-- what an accepted single-leaf range proof against an axis root says about the axis' shares -/
 theorem axis_leaf_bound {H : HashFn} (hk : HashOK H) {e : Eds} {k : Nat} (hw : e.width = 2 ^ k)
@@ -131,7 +140,8 @@ theorem sample_complete_core {H : HashFn} (hlen : HashLen H) {e : Eds} {k : Nat}
       ∃ sh sibs lh, e.share? row col = some sh ∧ e.axisLeafHashes H ax treeIdx = .ok lh ∧
         buildRangeProof H true lh leafIdx (leafIdx + 1) = .ok sibs ∧
         sibs.length = k ∧ (∀ p ∈ sibs, p.WF) ∧
-        checkRangeProof H true root [hashLeaf H sh.ns sh.data] sibs leafIdx = .ok () := by
+        checkRangeProof H true root [hashLeaf H sh.ns sh.data] sibs leafIdx = .ok () ∧
+        validateShape ⟨leafIdx, leafIdx + 1, sibs, true, false, none⟩ sh.ns sh.ns = .ok () := by
     intro treeIdx leafIdx root hli hroot hcoord
     obtain ⟨shares, hax, hcrt, halh⟩ := axisRoot_ok hroot
     obtain ⟨hlen', hget⟩ := axis?_some hax
@@ -154,23 +164,49 @@ theorem sample_complete_core {H : HashFn} (hlen : HashLen H) {e : Eds} {k : Nat}
     have hx : (shares.map (Share.leafHash H))[leafIdx]? = some (hashLeaf H sh.ns sh.data) := by
       rw [List.getElem?_map, hshi]; rfl
     obtain ⟨sibs, hb, hs, hchk⟩ := range_single_complete hv.kpos hk31 hL hcrt (by omega) hx
-    exact ⟨sh, sibs, _, hsh, halh, hb, hs, buildRangeProof_WF hlen wl hb, hchk⟩
+    -- the honest proof passes lumina's shape validation: its siblings are roots of sorted segments
+    have hpush : pushLeaves H (shares.map Share.leaf) = some (shares.map (Share.leafHash H)) := by
+      have := halh
+      unfold Eds.axisLeafHashes at this
+      simp only [hax] at this
+      cases hp : pushLeaves H (shares.map Share.leaf) with
+      | none => simp [hp] at this
+      | some v => simp only [hp, Except.ok.injEq] at this; rw [this]
+    obtain ⟨hsorted, hleafns⟩ := pushLeaves_sorted hpush (by
+      intro p hp
+      obtain ⟨y, hy, rfl⟩ := List.mem_map.mp hp
+      have := hv.size y (hmem y hy)
+      exact share_ns_length (by rw [this]; decide))
+    obtain ⟨k', rfl⟩ : ∃ k', k = k' + 1 := ⟨k - 1, by have := hv.kpos; omega⟩
+    have hpr := hcrt
+    rw [computeRoot_perfect hL] at hpr
+    obtain ⟨pl, pr, hbs, hsl, hsr, hpll⟩ := build_single_segs k' ((shares.map (Share.leafHash H)).length + 1)
+      (shares.map (Share.leafHash H)) 0 leafIdx root hL (Nat.zero_le _) (by omega) hpr (by omega)
+    have hsibs : sibs = pl ++ pr := by
+      unfold buildRangeProof at hb
+      have hnl : ¬ (leafIdx + 1 > (shares.map (Share.leafHash H)).length) := by omega
+      simp only [hcrt, hnl, ↓reduceIte, hbs, Except.ok.injEq] at hb
+      exact hb.symm
+    have hshape := validateShape_honest (H := H) hleafns hsorted hx (by simpa using hsl) (by simpa using hsr)
+      (by simpa using hpll) true
+    rw [← hsibs] at hshape
+    exact ⟨sh, sibs, _, hsh, halh, hb, hs, buildRangeProof_WF hlen wl hb, hchk, hshape⟩
   cases ax with
   | row =>
-    obtain ⟨sh, sibs, lh, hsh, halh, hb, hs, hwf, hchk⟩ := core row col rr hc hrr1 rfl
+    obtain ⟨sh, sibs, lh, hsh, halh, hb, hs, hwf, hchk, hshape⟩ := core row col rr hc hrr1 rfl
     refine ⟨⟨.row, sh, ⟨col, col + 1, sibs, true, false, none⟩⟩, ?_, fromRaw_toRaw_honest hv hr hc hc hsh hwf hs .row, ?_, hsh⟩
     · simp only [Lumina.Model.Sample.new, hsh, halh, hb]
     · have hr1 : dah.rowRoot? row = some rr := hrr2
       have hc1 : dah.colRoot? col = some cr := hcr2
-      simp only [verify, hr1, hc1, ne_eq, not_true_eq_false, ↓reduceIte, verifyRange, Bool.false_eq_true,
+      simp only [verify, hr1, hc1, ne_eq, not_true_eq_false, ↓reduceIte, luminaVerifyRange, hshape, verifyRange, Bool.false_eq_true,
         List.length_singleton, NsProof.rangeLen, Nat.add_sub_cancel_left, List.map_cons, List.map_nil, hchk]
   | col =>
-    obtain ⟨sh, sibs, lh, hsh, halh, hb, hs, hwf, hchk⟩ := core col row cr hr hcr1 rfl
+    obtain ⟨sh, sibs, lh, hsh, halh, hb, hs, hwf, hchk, hshape⟩ := core col row cr hr hcr1 rfl
     refine ⟨⟨.col, sh, ⟨row, row + 1, sibs, true, false, none⟩⟩, ?_, fromRaw_toRaw_honest hv hr hc hr hsh hwf hs .col, ?_, hsh⟩
     · simp only [Lumina.Model.Sample.new, hsh, halh, hb]
     · have hr1 : dah.rowRoot? row = some rr := hrr2
       have hc1 : dah.colRoot? col = some cr := hcr2
-      simp only [verify, hr1, hc1, ne_eq, not_true_eq_false, ↓reduceIte, verifyRange, Bool.false_eq_true,
+      simp only [verify, hr1, hc1, ne_eq, not_true_eq_false, ↓reduceIte, luminaVerifyRange, hshape, verifyRange, Bool.false_eq_true,
         List.length_singleton, NsProof.rangeLen, Nat.add_sub_cancel_left, List.map_cons, List.map_nil, hchk]
 
 end Lumina.Proofs.Sample
